@@ -8,9 +8,11 @@ CONSTANTS
   FD = 3
   FP = 2
   MTU = 100
+  MTUs = {40, 72, 2000}
+  ParityGuard = TRUE
   CoreSizes <- CoreSizesB
   OOBLens <- OOBLensB
   MaxOut = 6
-INVARIANTS LenBound SizeFieldRule TypeMatchesPosition IdsDistinct ParityCoversGroup IntegrityGuards OOBNeverEntersFecOrKcp SessionOnlyForNewConversation ForeignConvNeverMerged
+INVARIANTS LenBound MtuAccepted SizeFieldRule TypeMatchesPosition IdsDistinct ParityCoversGroup IntegrityGuards OOBNeverEntersFecOrKcp SessionOnlyForNewConversation ForeignConvNeverMerged
 PROPERTIES OOBConsumesNoSeqid
 CHECK_DEADLOCK FALSE
